@@ -78,142 +78,321 @@ fn cpu_ms() -> u64 {
 	ts.tv_sec as u64 * 1000 + ts.tv_nsec as u64 / 1_000_000
 }
 
-thread_local! {
-	static PHASES: std::cell::RefCell<[u64; 4]> = std::cell::RefCell::new([0; 4]);
+/// What one executed history looked like (for labels / non-triviality).
+#[derive(Default)]
+struct Outcome {
+	tags: Vec<&'static str>,
+	stats: FwdStats,
+	dist: [u64; 5],
+	quiet: bool,
+	mined: u32,
+	/// the case ended early because another property's oracle fired: (property, oracle)
+	foreign: Option<(String, String)>,
+	model_lost: bool,
+	durability_checks: u64,
 }
 
-fn oracle(c: &Case, ctx: &mut Ctx) -> CaseResult {
-	let t0 = std::time::Instant::now();
+/// Run `ops` on a fresh world, step the oracles after every operation, settle, run the final checks.
+/// A panic inside the library is a failure of the case; the known ones get line-independent keys.
+fn run(spec: &WorldSpec, ops: &[COp], resolutions: &[bool], ctx: &mut Ctx) -> Result<Outcome, Failure> {
 	let c0 = cpu_ms();
-	let mut sim = c.spec.build(false);
-	let t1 = t0.elapsed();
-	// a panic inside the library is a failure of the case (the runner records it); print the history first
-	let mut r = match std::panic::catch_unwind(std::panic::AssertUnwindSafe(|| oracle_inner(c, ctx, &mut sim))) {
+	let mut sim = spec.build(false);
+	let r = match std::panic::catch_unwind(std::panic::AssertUnwindSafe(|| run_inner(spec, ops, resolutions, ctx, &mut sim))) {
 		Ok(r) => r,
 		Err(payload) => {
 			if ctx.replay {
 				println!("==== history (panicked) ====\n{}", dump_history(&sim));
 			}
-			// give the library's own contract assertions a key that does not depend on a line number
 			let (msg, loc) = vcore::take_last_panic().unwrap_or_default();
-			if msg.contains("returned Completed while prior updates are still InProgress") {
+			if msg.contains("returned Completed while prior updates are still InProgress") && reload_with_landed_writes(&sim) {
 				Err(Failure::new("panic", format!("panic at {}: {}", loc, msg)).with_key("panic/update-completed-while-prior-in-flight"))
+			} else if msg.contains("self.pending_claim_requests.get(&claim_id).is_none()") {
+				// OnchainTxHandler registered two claims with one id (debug assertion)
+				Err(Failure::new("panic", format!("panic at {}: {}", loc, msg)).with_key("panic/onchaintx-duplicate-claim-id"))
 			} else {
 				vcore::set_last_panic(Some((msg, loc)));
 				std::panic::resume_unwind(payload)
 			}
 		},
 	};
-	// development aids (never set by ./check): timing report, and exclusion of failure keys under triage
+	// development aids (never set by ./check): cpu report, and exclusion of failure keys under triage
 	if std::env::var("VERIF_C02_TIMING").is_ok() {
-		let ph = PHASES.with(|p| *p.borrow());
-		vcore::report(&format!("[cpu] total {} build {} ops {} settle {} finish {} blocks {} ops {}", cpu_ms() - c0, ph[0].saturating_sub(c0), ph[1] - ph[0], ph[2] - ph[1], ph[3] - ph[2], sim.chain.height(), c.ops.len()));
-	}
-	if std::env::var("VERIF_C02_TIMING").is_ok() && t0.elapsed().as_millis() > 1500 {
-		vcore::report(&format!("[timing] case took {} ms (build {} ms), {} ops, height {}, pending: {}", t0.elapsed().as_millis(), t1.as_millis(), c.ops.len(), sim.chain.height(), sim.c02_chain_work_desc().chars().take(400).collect::<String>()));
-	}
-	if let (Err(f), Ok(ex)) = (&r, std::env::var("VERIF_C02_EXCLUDE")) {
-		if ex.split(',').any(|k| k == f.key) {
-			ctx.label(&format!("excluded-under-triage:{}", f.key));
-			r = Ok(());
-		}
+		vcore::report(&format!("[cpu] total {} ms, {} ops, height {}, pending: {}", cpu_ms() - c0, ops.len(), sim.chain.height(), sim.c02_chain_work_desc().chars().take(200).collect::<String>()));
 	}
 	if ctx.replay && (r.is_err() || std::env::var("VERIF_C02_TRACE").is_ok()) {
 		println!("==== history ====\n{}", dump_history(&sim));
 	}
+	if let (Err(f), Ok(ex)) = (&r, std::env::var("VERIF_C02_EXCLUDE")) {
+		if ex.split(',').any(|k| k == f.key) {
+			ctx.label(&format!("excluded-under-triage:{}", f.key));
+			return Ok(Outcome { foreign: Some(("triage".into(), f.key.clone())), ..Default::default() });
+		}
+	}
 	r
 }
 
-fn foreign(ctx: &mut Ctx, prop: &str, f: Failure) -> CaseResult {
-	ctx.label(&format!("foreign-failure:{}:{}", prop, f.oracle));
-	if std::env::var("VERIF_DEBUG_FOREIGN").is_ok() {
-		return Err(f);
+/// Condition of the known reload panic: B was restarted from monitor images that contain writes which were
+/// still in flight (InProgress) when it stopped, and since that restart no Persist call of B answered InProgress.
+fn reload_with_landed_writes(sim: &Sim) -> bool {
+	use netsim::rec::{hist_since, HEvent};
+	let Some((rs, ids)) = sim.log.iter().rev().find_map(|(s, e)| match e {
+		SEvent::Restart { node, ok: true, monitor_ids, .. } if *node == B => Some((*s, monitor_ids.clone())),
+		_ => None,
+	}) else {
+		return false;
+	};
+	let mut inflight: std::collections::BTreeSet<(lightning::ln::types::ChannelId, u64)> = Default::default();
+	let mut in_progress_after = false;
+	for (s, e) in hist_since(0) {
+		match e {
+			HEvent::PersistUpdate { node, chan, update_id: Some(id), in_progress: true, .. } if node == B => {
+				if s < rs {
+					inflight.insert((chan, id));
+				} else {
+					in_progress_after = true;
+				}
+			},
+			HEvent::PersistCompleted { node, chan, update_id } if node == B && s < rs => {
+				inflight.remove(&(chan, update_id));
+			},
+			_ => {},
+		}
 	}
-	Ok(())
+	let landed = inflight.iter().any(|(c, id)| ids.iter().any(|(c2, used)| c2 == c && *id <= *used));
+	landed && !in_progress_after
 }
 
-fn oracle_inner(c: &Case, ctx: &mut Ctx, sim: &mut Sim) -> CaseResult {
-	PHASES.with(|p| p.borrow_mut()[0] = cpu_ms());
+fn run_inner(spec: &WorldSpec, ops: &[COp], resolutions: &[bool], ctx: &mut Ctx, sim: &mut Sim) -> Result<Outcome, Failure> {
+	let mut out = Outcome::default();
 	sim.snapshot_manager(B);
 	let mut co = CommitOracle::new(sim);
 	co.allow_force_close = true;
 	let mut fo = FwdOracle::new(sim);
-	let mut tags: Vec<&'static str> = vec![];
-	for op in c.ops.iter() {
-		let tag = apply_c02(sim, &c.spec, op);
-		tags.push(tag);
+	let debug_foreign = std::env::var("VERIF_DEBUG_FOREIGN").is_ok();
+	for op in ops.iter() {
+		let tag = apply_c02(sim, spec, op);
+		out.tags.push(tag);
 		if tag == "restart-failed" {
 			// a restart from legally persisted state that does not deserialize is C10's verdict
-			return foreign(ctx, "C10", Failure::new("restart-deserialization", format!("{:?}", sim.last_restart_error)));
+			let f = Failure::new("restart-deserialization", format!("{:?}", sim.last_restart_error));
+			if debug_foreign {
+				return Err(f);
+			}
+			out.foreign = Some(("C10".into(), f.oracle));
+			return Ok(out);
 		}
 		fo.step(sim)?;
 		if let Err(f) = co.step(sim) {
-			return foreign(ctx, "C01", f);
+			if debug_foreign {
+				return Err(f);
+			}
+			out.foreign = Some(("C01".into(), f.oracle));
+			return Ok(out);
 		}
 	}
 	if ctx.replay {
-		println!("==== ops applied: {:?}", tags);
+		println!("==== ops applied: {:?}", out.tags);
 	}
-	PHASES.with(|p| p.borrow_mut()[1] = cpu_ms());
-	let (quiet, mined) = sim.c02_settle(c.spec.deferred, &c.resolutions, 700);
+	let (quiet, mined) = sim.c02_settle(spec.deferred, resolutions, 700);
+	out.quiet = quiet;
+	out.mined = mined;
 	fo.step(sim)?;
 	if let Err(f) = co.step(sim) {
-		return foreign(ctx, "C01", f);
+		if debug_foreign {
+			return Err(f);
+		}
+		out.foreign = Some(("C01".into(), f.oracle));
+		return Ok(out);
 	}
 	if let Some(e) = &fo.model_error {
-		ctx.label("model-lost-track");
-		if std::env::var("VERIF_DEBUG_FOREIGN").is_ok() {
+		out.model_lost = true;
+		if debug_foreign {
 			return Err(Failure::new("bolt2-model", e.clone()));
 		}
 	}
-	PHASES.with(|p| p.borrow_mut()[2] = cpu_ms());
 	if quiet {
-		fo.finish(sim, &c.spec)?;
-	} else {
-		ctx.label("not-quiescent");
+		fo.finish(sim, spec)?;
 	}
-	PHASES.with(|p| p.borrow_mut()[3] = cpu_ms());
-	let st = fo.stats.clone();
-	let dist = fo.disturbed_fulfilled(sim);
-	ctx.label(match c.spec.topo {
+	out.stats = fo.stats.clone();
+	out.durability_checks = fo.durability_checks;
+	out.dist = fo.disturbed_fulfilled(sim);
+	Ok(out)
+}
+
+fn world_labels(spec: &WorldSpec, ctx: &mut Ctx) {
+	ctx.label(match spec.topo {
 		Topology::Line4 => "topo:line4",
 		Topology::Line3Parallel => "topo:line3-parallel",
 		_ => "topo:line3",
 	});
-	ctx.label(match c.spec.ctype {
+	ctx.label(match spec.ctype {
 		CType::Static => "type:static_remote_key",
 		CType::Anchors => "type:anchors_zero_fee_htlc",
 		CType::ZeroFee => "type:zero_fee_commitments",
 	});
+	ctx.label_if(spec.deferred, "deferred-chain-monitor");
+}
+
+fn outcome_label_list(o: &Outcome) -> Vec<String> {
+	let mut v: Vec<String> = vec![];
+	let mut add = |c: bool, l: &str| {
+		if c {
+			v.push(l.to_string());
+		}
+	};
+	if let Some((p, k)) = &o.foreign {
+		add(p != "triage", &format!("foreign-failure:{}:{}", p, k));
+		return v;
+	}
+	let st = &o.stats;
 	for t in ["claim-then", "close-then-claim", "mine-to-expiry", "force-close", "send-refused"] {
-		ctx.label_if(tags.contains(&t), &format!("op:{}", t));
+		add(o.tags.contains(&t), &format!("op:{}", t));
 	}
-	ctx.label_if(st.forwarded > 0, "forwarded");
-	ctx.label_if(st.refused_forwards > 0, "forward-refused-and-failed-back");
-	ctx.label_if(st.fee_edge[0] > 0, "forwarded-at-exact-policy-fee");
-	ctx.label_if(st.delta_edge[0] > 0, "forwarded-at-exact-policy-delta");
-	ctx.label_if(st.learned_msg > 0, "preimage-learned-by-message");
-	ctx.label_if(st.learned_chain > 0, "preimage-learned-from-chain");
-	ctx.label_if(st.up_fulfilled_msg > 0, "upstream-fulfilled-by-message");
-	ctx.label_if(st.up_fulfilled_chain > 0, "upstream-claimed-on-chain");
-	ctx.label_if(st.up_failed_after_offchain_removal > 0, "upstream-failed-after-offchain-removal");
-	ctx.label_if(st.up_failed_after_onchain > 0, "upstream-failed-after-onchain-resolution");
-	ctx.label_if(st.fee_events_checked > 0, "payment-forwarded-fee-checked");
-	ctx.label_if(st.restarts_b > 0, "restarted-B");
-	ctx.label_if(st.chans_onchain > 0, "channel-resolved-on-chain");
-	ctx.label_if(st.dust_forfeits > 0, "upstream-dust-forfeited");
-	ctx.label_if(dist[1] > 0, "disturbance:async-update-in-flight-at-fulfil");
-	ctx.label_if(dist[2] > 0, "disturbance:disconnect");
-	ctx.label_if(dist[3] > 0, "disturbance:restart");
-	ctx.label_if(dist[4] > 0, "disturbance:on-chain");
-	ctx.label_if(c.spec.deferred, "deferred-chain-monitor");
-	ctx.label_if(mined > 0, "settle-mined-blocks");
-	if quiet && !st.ledger.is_empty() {
-		ctx.label(&format!("ledger:{}", st.ledger));
+	add(o.model_lost, "model-lost-track");
+	add(!o.quiet, "not-quiescent");
+	add(st.forwarded > 0, "forwarded");
+	add(st.refused_forwards > 0, "forward-refused-and-failed-back");
+	add(st.fee_edge[0] > 0, "forwarded-at-exact-policy-fee");
+	add(st.delta_edge[0] > 0, "forwarded-at-exact-policy-delta");
+	add(st.learned_msg > 0, "preimage-learned-by-message");
+	add(st.learned_chain > 0, "preimage-learned-from-chain");
+	add(st.up_fulfilled_msg > 0, "upstream-fulfilled-by-message");
+	add(st.up_fulfilled_chain > 0, "upstream-claimed-on-chain");
+	add(st.up_failed_after_offchain_removal > 0, "upstream-failed-after-offchain-removal");
+	add(st.up_failed_after_onchain > 0, "upstream-failed-after-onchain-resolution");
+	add(st.fee_events_checked > 0, "payment-forwarded-fee-checked");
+	add(st.restarts_b > 0, "restarted-B");
+	add(st.chans_onchain > 0, "channel-resolved-on-chain");
+	add(st.dust_forfeits > 0, "upstream-dust-forfeited");
+	add(o.durability_checks > 0, "durability-order-checked");
+	add(o.dist[1] > 0, "disturbance:async-update-in-flight-at-fulfil");
+	add(o.dist[2] > 0, "disturbance:disconnect");
+	add(o.dist[3] > 0, "disturbance:restart");
+	add(o.dist[4] > 0, "disturbance:on-chain");
+	add(o.mined > 0, "settle-mined-blocks");
+	add(o.quiet && !st.ledger.is_empty(), &format!("ledger:{}", st.ledger));
+	v
+}
+
+fn outcome_labels(o: &Outcome, ctx: &mut Ctx) {
+	for l in outcome_label_list(o) {
+		ctx.label(&l);
 	}
+}
+
+fn oracle(c: &Case, ctx: &mut Ctx) -> CaseResult {
+	let o = run(&c.spec, &c.ops, &c.resolutions, ctx)?;
+	world_labels(&c.spec, ctx);
+	outcome_labels(&o, ctx);
+	let st = &o.stats;
 	ctx.sub_evaluations(st.admission_checks + st.learned_msg + st.learned_chain + st.up_failed_after_offchain_removal + st.up_failed_after_onchain);
-	ctx.nontrivial_if(dist[0] > 0);
-	ctx.summary(json!({"topo": format!("{:?}", c.spec.topo), "type": format!("{:?}", c.spec.ctype), "ops": tags, "forwarded": st.forwarded, "refused": st.refused_forwards, "learned": st.learned_msg + st.learned_chain, "blocks_in_settle": mined, "ledger": st.ledger}));
+	ctx.nontrivial_if(o.dist[0] > 0);
+	ctx.summary(json!({"topo": format!("{:?}", c.spec.topo), "type": format!("{:?}", c.spec.ctype), "ops": o.tags, "forwarded": st.forwarded, "refused": st.refused_forwards, "learned": st.learned_msg + st.learned_chain, "blocks_in_settle": o.mined, "ledger": st.ledger}));
+	Ok(())
+}
+
+// ------------------------------------------------------------------------------------------------
+// (d) crash points: one short flow, B crashed and restarted after every prefix of it
+// ------------------------------------------------------------------------------------------------
+
+#[derive(Clone, Debug, Serialize, Deserialize)]
+struct CrashCase {
+	spec: WorldSpec,
+	/// payments brought to the recipient, persistence modes
+	setup: Vec<COp>,
+	/// the flow around the recipient's claim, in atomic steps
+	steps: Vec<COp>,
+	/// crash after every prefix of `steps` (otherwise after the prefixes picked by `points`)
+	all_points: bool,
+	points: Vec<u16>,
+	/// per crash: which manager snapshot (0 = newest) and whether in-flight monitor writes had landed
+	snaps: Vec<u16>,
+	landed: Vec<bool>,
+	resolutions: Vec<bool>,
+}
+
+fn exact_send() -> impl Strategy<Value = FwdSend> + Clone {
+	(any::<u16>(), prop_oneof![3 => (1_000_000u64..40_000_000).prop_map(Amt::Abs), 1 => amt_strategy()]).prop_map(|(route, a)| FwdSend { route, amt: FwdAmt::Base(a), fee_adj: 0, delta_adj: 0, final_delta: 70 })
+}
+
+fn crash_strat() -> impl Strategy<Value = CrashCase> {
+	let setup_op = prop_oneof![
+		5 => exact_send().prop_map(COp::FwdReady),
+		2 => (any::<u16>(), Just(true)).prop_map(|(chan, on)| COp::AsyncB { chan, on }),
+		1 => Just(COp::SnapshotB),
+		1 => Just(COp::CompleteAllB),
+	];
+	let atomic = prop_oneof![
+		40 => any::<u16>().prop_map(|link| COp::Deliver { link, k: 1 }),
+		14 => any::<u16>().prop_map(|which| COp::CompleteB { which }),
+		10 => Just(COp::SnapshotB),
+		6 => Just(COp::Base(Op::Forwards { node: 30000 })),
+		6 => any::<u16>().prop_map(|node| COp::Base(Op::Events { node })),
+		4 => (any::<u16>(), 1u8..3, prop_oneof![Just(Disturb::None), Just(Disturb::AsyncUp), Just(Disturb::AsyncDown), Just(Disturb::AsyncBoth)]).prop_map(|(pay, k, then)| COp::ClaimThen { pay, k, then }),
+		2 => any::<u16>().prop_map(|pay| COp::Base(Op::FailBack { pay })),
+		2 => (any::<u16>(), any::<bool>()).prop_map(|(chan, on)| COp::AsyncB { chan, on }),
+		2 => any::<u16>().prop_map(|pair| COp::Base(Op::Disconnect { pair })),
+		3 => any::<u16>().prop_map(|pair| COp::Base(Op::Reconnect { pair })),
+	];
+	(
+		world_spec(vec![Topology::Line3, Topology::Line3, Topology::Line3Parallel, Topology::Line4]),
+		proptest::collection::vec(setup_op, 2..6),
+		(any::<u16>(), 1u8..3, prop_oneof![Just(Disturb::None), Just(Disturb::AsyncUp), Just(Disturb::AsyncDown), Just(Disturb::AsyncBoth)]),
+		proptest::collection::vec(atomic, 3..22),
+		(proptest::bool::weighted(0.3), proptest::collection::vec(any::<u16>(), 3..7)),
+		proptest::collection::vec(prop_oneof![3 => Just(0u16), 1 => Just(20000u16), 1 => any::<u16>()], 1..5),
+		proptest::collection::vec(proptest::bool::weighted(0.3), 1..5),
+		proptest::collection::vec(proptest::bool::weighted(0.8), 1..4),
+	)
+		.prop_map(|(mut spec, mut setup, (pay, k, then), mut steps, (all_points, points), snaps, landed, resolutions)| {
+			// room for forwarding, and a snapshot that is not older than the payments' arrival at the recipient
+			spec.dust_exposure_fixed_msat = None;
+			spec.dust_exposure_multiplier = spec.dust_exposure_multiplier.max(10_000);
+			spec.inflight_pct = 100;
+			spec.max_accepted = spec.max_accepted.max(20);
+			spec.htlc_min_msat = spec.htlc_min_msat.min(1000);
+			spec.reserve_ppm = spec.reserve_ppm.min(20_000);
+			for v in spec.value_sat.iter_mut() {
+				*v = (*v).max(200_000);
+			}
+			setup.push(COp::FwdReady(FwdSend { route: pay, amt: FwdAmt::Base(Amt::Abs(6_000_000)), fee_adj: 0, delta_adj: 0, final_delta: 70 }));
+			setup.push(COp::SnapshotB);
+			steps.insert(0, COp::ClaimThen { pay, k, then });
+			CrashCase { spec, setup, steps, all_points, points, snaps, landed, resolutions }
+		})
+}
+
+fn crash_oracle(c: &CrashCase, ctx: &mut Ctx) -> CaseResult {
+	let n = c.steps.len();
+	let mut positions: Vec<usize> = if c.all_points { (0..=n).collect() } else { c.points.iter().map(|p| pick(*p, n + 1)).collect() };
+	positions.sort();
+	positions.dedup();
+	world_labels(&c.spec, ctx);
+	let mut any_window = false;
+	let mut agg: std::collections::BTreeSet<String> = Default::default();
+	let mut evals = 0;
+	for (i, pos) in positions.iter().enumerate() {
+		let mut ops: Vec<COp> = c.setup.clone();
+		ops.extend(c.steps[..*pos].iter().cloned());
+		ops.push(COp::RestartB { snap: c.snaps[i % c.snaps.len()], landed: c.landed[i % c.landed.len()] });
+		let o = run(&c.spec, &ops, &c.resolutions, ctx).map_err(|mut f| {
+			f.detail = format!("[crash after step {} of {}, snapshot choice {}, landed {}] {}", pos, n, c.snaps[i % c.snaps.len()], c.landed[i % c.landed.len()], f.detail);
+			f
+		})?;
+		evals += 1;
+		// labels of the sub-runs are merged (one count per case)
+		for l in outcome_label_list(&o) {
+			agg.insert(l);
+		}
+		any_window |= o.dist[3] > 0;
+	}
+	for l in agg {
+		ctx.label(&l);
+	}
+	ctx.label_if(c.all_points, "all-crash-points");
+	ctx.sub_evaluations(evals);
+	ctx.nontrivial_if(any_window);
+	ctx.summary(json!({"topo": format!("{:?}", c.spec.topo), "type": format!("{:?}", c.spec.ctype), "steps": n, "crash_points": positions}));
 	Ok(())
 }
 
@@ -248,6 +427,17 @@ fn main() {
 		},
 		|| strat(onchain_weights(), 12, 50),
 		oracle,
+	);
+	c.part_with(
+		PartSpec {
+			name: "crash-points",
+			rule: &format!("fault enumeration over the crash point: roomy line worlds; setup brings 1-5 exact-policy payments through B to the recipient (some of B's channels persisting asynchronously) and ends with a manager snapshot; the flow starts with the recipient's claim reaching B and continues with 3..21 atomic steps (single message deliveries, single update completions, snapshots, forwards, events, further claims/failures, disconnects); B is crashed after every prefix of the flow (30% of the cases) or after 3-6 picked prefixes, restarted from the newest / an older manager snapshot and the durable (or landed) monitor images, and the continuation is driven to quiescence under all oracles. {} Non-trivial: in at least one crash the restart fell between B learning a preimage and the upstream resolution", RULE_TAIL),
+			quick_cases: 260,
+			thorough_cases: 9_000,
+			max_shrink: 300,
+		},
+		crash_strat,
+		crash_oracle,
 	);
 	c.finish();
 }
